@@ -454,6 +454,40 @@ Definition go_client_cobsEncode : sfunc := {| sf_name := "client.cobsEncode"; sf
  TAppend "ret" (XConst 1%Z)]
  []];
  TReturnApp "ret" (XConst 0%Z)] |}.
+Definition go_client_cobsDecodeInplace : sfunc := {| sf_name := "client.cobsDecodeInplace"; sf_params := [("b", (TU 8))]; sf_body :=
+ [TIf (XOrElse (XIsNil "b") (XBin OLe TBool (XLen "b") (XConst 2%Z)))
+ [TReturnIntErr (XConst 0%Z) "errors.New(""Not enough data for cobs decode"")"]
+ [];
+ TDecl "foundStart" TBool (XConst 0%Z);
+ TDecl "iIn" (TS 64) (XConst 0%Z);
+ TDecl "iOut" (TS 64) (XConst 0%Z);
+ TDecl "off" (TU 8) (XConst 0%Z);
+ TDecl "iOff" (TU 8) (XConst 0%Z);
+ TForLen "iIn" "b"
+ [TDecl "bCur" (TU 8) (XIndex "b" (XVar "iIn"));
+ TIf (XNot (XVar "foundStart"))
+ [TIf (XBin OEq TBool (XVar "bCur") (XConst 0%Z))
+ []
+ [TAssign "foundStart" (XConst 1%Z);
+ TAssign "off" (XVar "bCur");
+ TAssign "iOff" (XConst 0%Z)]]
+ [TAssign "iOff" (XBin OAdd (TU 8) (XVar "iOff") (XConst 1%Z));
+ TIf (XBin OEq TBool (XVar "iOff") (XVar "off"))
+ [TIf (XBin OEq TBool (XVar "bCur") (XConst 0%Z))
+ [TReturnIntErr (XVar "iOut") ""]
+ [];
+ TIf (XBin ONe TBool (XVar "off") (XConst 255%Z))
+ [TStore "b" (XVar "iOut") (XConst 0%Z);
+ TAssign "iOut" (XBin OAdd (TS 64) (XVar "iOut") (XConst 1%Z))]
+ [];
+ TAssign "off" (XVar "bCur");
+ TAssign "iOff" (XConst 0%Z)]
+ [TIf (XBin OEq TBool (XVar "bCur") (XConst 0%Z))
+ [TReturnIntErr (XConst 0%Z) "ErrCobsDecodeError"]
+ [];
+ TStore "b" (XVar "iOut") (XVar "bCur");
+ TAssign "iOut" (XBin OAdd (TS 64) (XVar "iOut") (XConst 1%Z))]]];
+ TReturnIntErr (XVar "iOut") ""] |}.
 
 (* ---------- store ---------- *)
 Definition go_store_NewSqliteDb_pragmas : list N := [95; 112; 114; 97; 103; 109; 97; 61; 102; 111; 114; 101; 105; 103; 110; 95; 107; 101; 121; 115; 40; 49; 41; 38; 95; 112; 114; 97; 103; 109; 97; 61; 106; 111; 117; 114; 110; 97; 108; 95; 109; 111; 100; 101; 40; 87; 65; 76; 41; 38; 95; 112; 114; 97; 103; 109; 97; 61; 115; 121; 110; 99; 104; 114; 111; 110; 111; 117; 115; 40; 78; 79; 82; 77; 65; 76; 41; 38; 95; 112; 114; 97; 103; 109; 97; 61; 98; 117; 115; 121; 95; 116; 105; 109; 101; 111; 117; 116; 40; 56; 48; 48; 48; 41; 38; 95; 112; 114; 97; 103; 109; 97; 61; 106; 111; 117; 114; 110; 97; 108; 95; 115; 105; 122; 101; 95; 108; 105; 109; 105; 116; 40; 49; 48; 48; 48; 48; 48; 48; 48; 48; 41]%N.   (* "_pragma=foreign_keys(1)&_pragma=journal_mode(WAL)&_pragma=synchronous(NORMAL)&_pragma=busy_timeout(8000)&_pragma=journal_size_limit(100000000)" *)
